@@ -36,6 +36,8 @@ def _entries(db, qt_of, base_of, defcat_of, thorough):
         "GetValues(u)": lambda s, u: P.outcome(lambda: Array(cat(u), [2.5, 1.0], base_of[qt_of[u]]).GetValues(s)),
         "Convert(qt,u,base,x)": lambda s, u: P.outcome(db.Convert, qt_of[u], s, base_of[qt_of[u]], 2.5),
         "Convert(qt,base,u,x)": lambda s, u: P.outcome(db.Convert, qt_of[u], base_of[qt_of[u]], s, 2.5),
+        "Convert(qt,u,u,x) same spelling on both sides": lambda s, u: P.outcome(db.Convert, qt_of[u], s, s, 2.5),
+        "Convert(cat,u,u,list) same spelling on both sides": lambda s, u: P.outcome(db.Convert, cat(u), s, s, [2.5, 1.0]),
         "Convert(cat,u,base,list)": lambda s, u: P.outcome(db.Convert, cat(u), s, base_of[qt_of[u]], [2.5, 1.0]),
         "GetDefaultCategory(u)": lambda s, u: P.outcome(db.GetDefaultCategory, s),
         "GetInfo(qt,u).unit": lambda s, u: P.outcome(lambda: db.GetInfo(qt_of[u], s).unit),
